@@ -18,7 +18,7 @@ Definition m_out_tags (o : list mout) : list N :=
 Definition m_mentions (w : nat) (x : mout) : Prop :=
   match x with
   | MDeliver w' _ | MTimeoutErr w' | MKeyErr w' | MCancelled w' => w' = w
-  | MListen _ _ => False
+  | MListen _ _ | MSendErr _ => False     (* a request whose send failed was never registered *)
   end.
 (* request w has not ended yet *)
 Definition m_pending (w : nat) (o : list mout) : Prop := forall x, In x o -> ~ m_mentions w x.
@@ -73,7 +73,7 @@ Definition c_out_tags (o : list cout) : list N :=
 Definition c_mentions (w : nat) (x : cout) : Prop :=
   match x with
   | CDeliver w' _ | CProtoErr w' _ | CTimeoutErr w' | CCancelled w' => w' = w
-  | CListen _ => False
+  | CListen _ | CSendErr _ => False
   end.
 
 (* ------------------------------------------------------------ HTTP / RTSP *)
@@ -93,12 +93,13 @@ Definition h_got (x : hout) : option (nat * hresp) :=
 Definition h_device_ok (h : list hev) : Prop :=
   forall pre post, h = pre ++ post -> length (h_resps pre) <= length (h_reqs pre).
 
+(* every call of exchange() uses up a CSeq, also when its write fails *)
 Definition r_reqs_of (h : list rtev) : list nat :=
-  flat_map (fun e => match e with RReq w _ => [w] | _ => [] end) h.
+  flat_map (fun e => match e with RReq w _ | RReqFail w => [w] | _ => [] end) h.
 Definition r_resps (h : list rtev) : list hresp :=
   flat_map (fun e => match e with RResp r => [r] | _ => [] end) h.
 Definition r_is_abort (e : rtev) : bool :=
-  match e with RTimeout _ | RCancel _ => true | _ => false end.
+  match e with RTimeout _ | RCancel _ | RReqFail _ => true | _ => false end.
 Definition ok2xx (r : hresp) : Prop := (N.leb 200 (h_code r) && N.ltb (h_code r) 300) = true.
 (* no request is runnable: everybody is blocked (or done) *)
 Definition r_quiescent (s : rst) : Prop :=
